@@ -70,6 +70,14 @@ JudgeScBin(e, i) ==
                 ELSE [d |-> (IF e.out # "ok" THEN OutDiag(e.out) ELSE IF J(e.res) = x THEN "ok" ELSE "wrong_value"),
                       nt |-> ~IsZero(TruncRem(a, b)), cls |-> cls]
 
+\* x op= b against static_cast<Lhs>(a op b): same outcome class, same stored representation (the binary operator and the
+\* conversion are judged on their own events; where the reference itself is undefined or signals, the event is skipped)
+JudgeScAssign(e, i) ==
+    LET cls == ScCls(e, i, "") IN
+    IF e.refout # "ok" THEN [d |-> "skip", nt |-> FALSE, cls |-> cls]
+    ELSE [d |-> (IF e.out # "ok" THEN OutDiag(e.out) ELSE IF e.res = e.ref THEN "ok" ELSE "assign_differs_from_operator"),
+          nt |-> TRUE, cls |-> cls]
+
 JudgeScUn(e, i) ==
     LET lt == i.lt  rs == i.res_t  a == J(e.l)  x == Neg(a)  cls == ScCls(e, i, "") IN
     IF ~InRaw(a, lt) THEN [d |-> "bad_event", nt |-> FALSE, cls |-> cls]
